@@ -61,12 +61,13 @@ type c12Run struct {
 	store *snapshots.Store
 	ctl   *c12Ctl
 	// a call parked inside Checkpoint() and the calls issued while it is parked
-	held   *c12Pending
-	queued []*c12Pending
-	window atomic.Bool       // a hold window is open: calls run in goroutines, publications may overlap
-	mu     sync.Mutex        // guards the two maps (calls may run in goroutines)
-	spIDs  map[uint64]bool   // ids for which a savepoint was requested
-	pubs   map[uint64]string // what was persisted per published id
+	held      *c12Pending
+	queued    []*c12Pending
+	window    atomic.Bool       // a hold window is open: calls run in goroutines, publications may overlap
+	mu        sync.Mutex        // guards the two maps (calls may run in goroutines)
+	spIDs     map[uint64]bool   // ids for which a savepoint was requested
+	noRestore map[uint64]bool   // savepoints published inside a hold window (not used for restarts)
+	pubs      map[uint64]string // what was persisted per published id
 }
 
 func (r *c12Run) noteSavepoint(id uint64) {
@@ -261,11 +262,11 @@ func (r *c12Run) afterAck(err error, before int64, cp uint64) string {
 	r.mu.Lock()
 	r.pubs[cp] = c12Desc(&ck)
 	isSp := r.spIDs[cp]
-	if r.window.Load() {
+	if isSp && r.window.Load() {
 		// published inside a hold window: later calls of the window run concurrently with this publication, so the
-		// artifact race described below cannot be kept out; such a savepoint is not used for restarts (both sides)
-		delete(r.spIDs, cp)
-		isSp = false
+		// artifact race described below cannot be kept out; such a savepoint is not used for restarts (both sides).
+		// Its artifact is still awaited: existing artifacts count for the id counter of a savepoint restart (D66).
+		r.noRestore[cp] = true
 	}
 	r.mu.Unlock()
 	if isSp && len(ck.GetOperatorCheckpoints()) == 0 {
@@ -289,7 +290,7 @@ func (r *c12Run) afterAck(err error, before int64, cp uint64) string {
 }
 
 func c12Impl(c lib.Case) []string {
-	r := &c12Run{loc: newMemLoc(), spIDs: map[uint64]bool{}, pubs: map[uint64]string{}}
+	r := &c12Run{loc: newMemLoc(), spIDs: map[uint64]bool{}, noRestore: map[uint64]bool{}, pubs: map[uint64]string{}}
 	r.newStore("")
 	defer func() {
 		if r.held != nil { // never leave goroutines parked
@@ -397,7 +398,7 @@ func c12Impl(c lib.Case) []string {
 			}
 			k := u(1)
 			r.mu.Lock()
-			usable := r.spIDs[k] && strings.Contains(r.pubs[k], " ops=- ")
+			usable := r.spIDs[k] && !r.noRestore[k] && strings.Contains(r.pubs[k], " ops=- ")
 			r.mu.Unlock()
 			if !usable {
 				out = append(out, "nosavepoint")
@@ -736,6 +737,11 @@ func c12Fixed(tier string) []lib.Case {
 			"create 1,2 1", "opack 1 1 3 nokgr", "opack 2 1 4", "srack 1 1 5", "opack 1 1 6", "current"}},
 		{Header: "M C12", Tags: []string{"odd-payload", "published"}, Ops: []string{
 			"create 1 1", "srack 1 1 -", "opack 1 1 3 emptykgr", "create 1 -", "opack 1 2 4 nokgr", "current", "restart", "current"}},
+		// D66 (repaired): a job restarted from savepoint 1 in a storage that already holds the artifact of savepoint 3
+		// must not hand out id 3 again (it would overwrite that savepoint's directory): the next id is 4
+		{Header: "M C12", Tags: []string{"D66", "sprestart", "published"}, Ops: []string{
+			"savepoint - 1", "srack 1 1 4", "create 1 1", "opack 1 2 0", "srack 1 2 5", "savepoint - 1", "srack 1 3 6",
+			"sprestart 1 fresh", "create 1 1", "opack 1 4 0", "srack 1 4 7", "current"}},
 		// D64 (open): the job configured with savepoint 1 publishes checkpoint 2 and restarts with the same
 		// configuration: it goes back to savepoint 1 although checkpoint 2 is complete in its storage
 		{Header: "M C12", Tags: []string{"D64", "sprestart", "published"}, Ops: []string{
